@@ -157,6 +157,10 @@ def memo_rules(index: RepoIndex, rep, rule: str, eff, only_rel=None) -> None:
                                        for v in r.values()) or True:
                                 bad_uses.append(src(x.stmt) + '  (returns the cached object)')
                     # elements bound by iteration over the cached result
+                if not immutable:
+                    for t_ in eff.mutations_of(q, e.node):
+                        if not any(t_.startswith(b_[:40]) for b_ in bad_uses):
+                            bad_uses.append(t_)
                 rep.check(not bad_uses, rule, g.relpath, g.short, e.line, src(e.node)[:80],
                           f'the memoised result of {name} is modified or handed out: '
                           f'{bad_uses[:2]} -- later calls would see the change',
